@@ -2,6 +2,7 @@
 //! with the term-recording scalar `Sym` through its public API and prints the recorded DAGs.
 mod sym;
 mod entry;
+mod entry2;
 use std::collections::BTreeMap;
 use std::panic::{catch_unwind, AssertUnwindSafe};
 
@@ -68,7 +69,7 @@ fn single(spec: &str, side: &str, lane: usize) -> SingleBoundary<Sym> {
     }
 }
 
-fn row_boundary(spec: &str, lane: usize) -> RowBoundary<Sym> {
+pub fn row_boundary(spec: &str, lane: usize) -> RowBoundary<Sym> {
     // "NotAKnot" | "Natural" | "Clamped" | "Mixed:L:R"
     let parts: Vec<&str> = spec.split(':').collect();
     match parts[0] {
